@@ -24,10 +24,15 @@ open C13
 delegate to dalek), spec side = reference group law.
 `c13_pk_str <hex of the ASCII text>` / `c13_sk_str` → `ok <bytes>`|`err` (FromStr); `c13_pk_show <b>` / `c13_sk_show <b>` → hex text
 of the accepted key (Display) as hex-of-ASCII | `err`; `c13_pk_cons <b>` / `c13_sk_cons <b>` → `ok <re-encoded> <consumed>`|`err`
-(consensus decode of a prefix, then encode). Model side only (spec `-`). -/
+(consensus decode of a prefix, then encode); `c13_dalek_decompress <b>` → recompressed bytes of dalek's permissive
+`CompressedEdwardsY::decompress` | `err` (the intermediate stage of `PublicKey::from_slice`; model `Keys.decompressDalek`). Model side only (spec `-`). -/
 def stepC13 : Step
   | ["c13_sk", h] => let b := Hex.decode h; some (okErr (Keys.secretAccept b), okErr (specScalar b).isSome)
   | ["c13_pk", h] => let b := Hex.decode h; some (okErr (Keys.publicAccept b), okErr (specPt b).isSome)
+  | ["c13_dalek_decompress", h] =>
+    let b := Hex.decode h
+    if b.length != 32 then some ("err", "-") else
+    some ((match Keys.decompressDalek (Ed.leNat b) with | none => "err" | some P => Hex.encode (Ed.encodePt P)), "-")
   | ["c13_pub_of", a] =>
     some ("-", showPt ((specScalar (Hex.decode a)).map fun n => Ed.smul n Ed.G))
   | ["c13_add", a, b] =>
